@@ -101,6 +101,8 @@ pub struct Gen<A> { pub a: A }
 #[repr(C)]
 #[zero_copy]
 pub struct HoldsRange { pub n: u32, pub r: core::ops::RangeTo<Fake>, pub ri: core::ops::RangeToInclusive<Fake> }
+#[derive(Epserde, Clone, Debug)]
+pub struct Pre<A> { pub s: String, pub f: A }
 pub static FAKES: [Fake; 2] = [Fake { s: &FAKE_DATA }, Fake { s: &FAKE_DATA }];
 """
 F = "Fake { s: &FAKE_DATA }"
@@ -133,6 +135,13 @@ HAND_CONTEXTS = [
     ("seriter", "SerIter<'static, Fake, std::slice::Iter<'static, Fake>>", f"SerIter::from(FAKES.iter())"),
     ("seriter-in-generic", "Gen<SerIter<'static, Fake, std::slice::Iter<'static, Fake>>>", f"Gen {{ a: SerIter::from(FAKES.iter()) }}"),
     ("slice-in-generic", "Gen<&[Fake]>", f"Gen {{ a: &FAKES[..] }}"),
+] + [
+    # the wrong value, its zero-copy holder and an array of it at every residue of the stream offset
+    (f"after-string-{k}", "Pre<Fake>", f"Pre {{ s: String::from(\"{'x' * k}\"), f: {F} }}") for k in range(8)
+] + [
+    (f"holder-after-string-{k}", "Pre<HoldsFake>", f"Pre {{ s: String::from(\"{'x' * k}\"), f: HoldsFake {{ n: 1, f: {F} }} }}") for k in range(8)
+] + [
+    (f"array-after-string-{k}", "Pre<[Fake; 2]>", f"Pre {{ s: String::from(\"{'x' * k}\"), f: [{F}, {F}] }}") for k in (0, 3, 5)
 ]
 
 MAIN = """
@@ -157,7 +166,9 @@ fn main() {
     let v = %(ctor)s;
     let mut sink: Vec<u8> = Vec::new();
     std::panic::set_hook(Box::new(|_| {}));
-    let r = std::panic::catch_unwind(std::panic::AssertUnwindSafe(|| v.%(entry)s(&mut sink).map(|_| sink_len_hint()).map_err(|e| format!("{:?}", e))));
+    // two attempts in the same process: the second one must be refused like the first
+    let first = std::panic::catch_unwind(std::panic::AssertUnwindSafe(|| v.%(entry)s(&mut sink).map(|_| sink_len_hint()).map_err(|e| format!("{:?}", e))));
+    let r = if first.is_err() { std::panic::catch_unwind(std::panic::AssertUnwindSafe(|| v.%(entry)s(&mut sink).map(|_| sink_len_hint()).map_err(|e| format!("{:?}", e)))) } else { first };
     let needle = (FAKE_DATA.as_ptr() as usize).to_ne_bytes();
     let leaked = sink.windows(8).any(|w| w == needle);
     let header = 37 + core::any::type_name::<%(ty)s>().len();
